@@ -81,6 +81,7 @@ var table = []spec{
 	{Dir: "pkg/protocol", Name: "isValidLowEntropyRotation"},
 	{Dir: "pkg/protocol", Name: "lowBits"},
 	{Dir: "pkg/protocol", Name: "rotateLowEntropyMask"},
+	{Dir: "pkg/protocol", Name: "lowEntropyChunkMask"},
 	{Dir: "pkg/protocol", Name: "buildLowEntropyParams"},
 	{Dir: "pkg/protocol", Name: "lowEntropyEncodedPayloadLen"},
 	{Dir: "pkg/protocol", Name: "maxFragmentSize"},
